@@ -202,3 +202,27 @@ Theorem C20_scanner_is_source : forall (E : env) (s : st) (buf : bytes) (fuel : 
 Proof. exact (@ScanSrc.scan_model_is_translated_source). Qed.
 Print Assumptions C20_scanner_is_source.
 
+From Coq Require Import Lia ZifyBool ZifyNat ZifyN.
+From SJ Require Import Base.Bytes Base.Utf8 Base.FloatB Gen.Tables
+  Model.Read Model.Str Model.Num Model.Value Model.De Model.NumberM Model.DeTyped Model.ValueDe Model.NumberTarget
+  Spec.Syntax Spec.Denote.
+From SJ Require Import Proofs.NumInt Proofs.GrammarNum Proofs.ApNumber Proofs.SerValue Proofs.ValueDeAgreeAp Proofs.ValueDeAgreeApValue
+  Proofs.NumberTargetFinite.
+From SJ Require Spec.Layout Proofs.SerToValueAp.
+From Flocq Require Import Core BinarySingleNaN.
+From SJ Require Import Proofs.NumberTargetProps.
+Theorem C20_number_target_verbatim : forall cf w1 n w2, arbitrary_precision cf = true ->
+  ws_ok w1 = true -> ws_ok w2 = true -> num_ok n = true ->
+  number_from_text (mkEnv RSlice TEof cf) (w1 ++ render_num n ++ w2) = VOk (NLit (render_num n))
+  /\ number_from_text (mkEnv RIo TEof cf) (w1 ++ render_num n ++ w2) = VOk (NLit (render_num n)).
+Proof. exact (@NumberTargetProps.number_target_ap_verbatim). Qed.
+Print Assumptions C20_number_target_verbatim.
+
+Theorem C20_number_target_verbatim_sound : forall e inp n, arbitrary_precision (cf e) = true ->
+  first_sig inp <> Some 123 ->
+  number_from_text e inp = VOk n ->
+  exists lit w2, inp = firstn (span_len is_ws inp) inp ++ lit ++ w2
+              /\ n = NLit lit /\ Layout.number_text_ok lit = true /\ forallb is_ws w2 = true.
+Proof. exact (@NumberTargetProps.number_target_ap_verbatim_partial). Qed.
+Print Assumptions C20_number_target_verbatim_sound.
+
